@@ -260,14 +260,6 @@ func hpLiteral(fd *ast.FuncDecl, typ string, sc *hpScope) [][2]string {
 	return out
 }
 
-func leanPairs(l [][2]string) string {
-	var p []string
-	for _, kv := range l {
-		p = append(p, "("+leanStr(kv[0])+", "+leanStr(kv[1])+")")
-	}
-	return "[" + strings.Join(p, ", ") + "]"
-}
-
 func genHTTPProbe() {
 	var sb strings.Builder
 	sb.WriteString("namespace SxVerif.Generated.HttpProbe\n\n")
